@@ -320,24 +320,21 @@ theorem utm_hemisphere (z : Int) (south : Bool) (_hz : 1 ≤ z ∧ z ≤ 60) :
       normUtm .utmS epsg south = 32700 + z := by
   cases south <;> simp [normUtm] <;> omega
 
-/-- **pick_best_is_max_overlap** — among several candidates (non-degenerate polygon) the chosen
-CRS has the maximal overlap with the raster's polygon; with one candidate or a point-like polygon
-the first candidate is returned; no candidate is an error. -/
+/-- **pick_best_is_max_overlap** — among several candidates the chosen CRS has the maximal key: the
+largest overlap with the raster's polygon, or — for rasters too small to have a measurable area (a few
+metres across; repaired on fix-C11) — a zone whose valid region contains the raster's location whenever
+one of the candidates does; with a single candidate that one is returned; no candidate is an error. -/
 theorem pick_best_is_max_overlap (cands : List (Nat × Rat)) (big : Bool) (r : Nat)
     (h : pickBest cands big = .ok r) :
     ∃ v, (r, v) ∈ cands ∧
-      ((2 ≤ cands.length ∧ big = true) → ∀ x ∈ cands, x.2 ≤ v) ∧
-      (¬ (2 ≤ cands.length ∧ big = true) → cands.head? = some (r, v)) := by
+      (∀ x ∈ cands, x.2 ≤ v) ∧
+      (cands.length ≤ 1 → cands.head? = some (r, v)) := by
   cases cands with
   | nil => simp [pickBest] at h
   | cons first rest =>
     simp only [pickBest] at h
     split at h
     · rename_i hc
-      have hlen : 2 ≤ (first :: rest).length := by
-        cases rest with
-        | nil => exact absurd rfl hc.1
-        | cons _ _ => simp
       cases ha : argmaxFirst (first :: rest) with
       | none =>
         simp [argmaxFirst] at ha
@@ -347,20 +344,24 @@ theorem pick_best_is_max_overlap (cands : List (Nat × Rat)) (big : Bool) (r : N
         rw [ha] at h
         simp only [Except.ok.injEq] at h
         obtain ⟨hm, hmax⟩ := argmaxFirst_spec _ _ ha
-        refine ⟨cmax.2, ?_, fun _ => hmax, fun hn => absurd ⟨hlen, hc.2⟩ hn⟩
-        rw [← h]
-        exact hm
+        refine ⟨cmax.2, ?_, hmax, fun hn => ?_⟩
+        · rw [← h]
+          exact hm
+        · exfalso
+          cases rest with
+          | nil => exact hc rfl
+          | cons _ _ => simp at hn
     · rename_i hc
+      have hr : rest = [] := by
+        by_contra hne
+        exact hc hne
+      subst hr
       simp only [Except.ok.injEq] at h
       refine ⟨first.2, ?_, ?_, ?_⟩
       · rw [← h]; exact List.mem_cons_self
-      · intro hh
-        exfalso
-        apply hc
-        refine ⟨?_, hh.2⟩
-        intro hr
-        subst hr
-        simp at hh
+      · intro x hx
+        simp at hx
+        rw [hx]
       · intro _
         rw [← h]
         rfl
